@@ -795,3 +795,20 @@ def _comment_cdata_delimiters(repo, ob, failure):
 
 GENERATORS.insert(0, ("C02.comment.", _comment_cdata_delimiters))
 GENERATORS.insert(0, ("C02.cdata.", _comment_cdata_delimiters))
+
+
+def _empty_root(repo, ob, failure):
+    """an empty root element: the output is still one complete <svg> element, keeping the author's attributes"""
+    for doc in ['<svg/>', '<svg width="10"/>', '<svg id="r" />\n', '<!-- c --><svg/>']:
+        r = run_svgdx(repo, doc)
+        if r["rc"] != 0:
+            continue
+        tree, err = _parse_xml(r["out"])
+        if tree is None:
+            return {"input": doc, "observed": "output rejected by expat: %s; output ends with %r" % (err, r["out"][-30:]), "expected": "a single complete <svg> root element"}
+        if not tree.tag.endswith("svg") or ('width="10"' in doc and tree.get("width") != "10") or ('id="r"' in doc and tree.get("id") != "r"):
+            return {"input": doc, "observed": "root <%s %r>" % (tree.tag, dict(tree.attrib)), "expected": "root <svg> keeping the author's attributes"}
+    return None
+
+
+GENERATORS.insert(0, ("C02.root.closed", _empty_root))
